@@ -31,6 +31,7 @@ import dataclasses
 import random
 
 from vlib import ref_hci as ref
+from vlib import ref_hci_rp as rp_spec
 from vlib.result import R
 
 ID = 'C01'
@@ -1009,6 +1010,118 @@ class RpEntry:
         self.kind = 'cmdcomplete'
 
 
+def declared_rp_class(hci, cmd_cls):
+    """The return-parameters class a sync command names in its own bases
+    (`class X(HCI_SyncCommand[RP])`), found without looking at what was registered."""
+    import typing
+    for k in cmd_cls.__mro__:
+        for b in k.__dict__.get('__orig_bases__', ()):
+            origin = typing.get_origin(b)
+            if isinstance(origin, type) and issubclass(origin, hci.HCI_SyncCommand):
+                args = typing.get_args(b)
+                if args and isinstance(args[0], type):
+                    return args[0]
+    return None
+
+
+def _rp_attr_matches(v, chunk):
+    """An attribute parsed from `chunk` (little-endian integer, BD_ADDR or octet array)."""
+    n = len(chunk)
+    if hasattr(v, 'address_bytes'):
+        return bytes(v.address_bytes) == chunk
+    if isinstance(v, (bytes, bytearray)):
+        return bytes(v) == chunk
+    if isinstance(v, int):
+        return int(v) & ((1 << (8 * n)) - 1) == int.from_bytes(chunk, 'little')
+    if hasattr(v, '__bytes__'):
+        return bytes(v) == chunk
+    return False
+
+
+def rp_spec_checks(reg, e: Entry, pe, declared, rng, r: R, agg: Agg, n, cc_bytes):
+    """Clause H: return parameters shaped as the Core specification (vlib/ref_hci_rp.py, written
+    down per op code, not derived from bumble) come back as the class the command declares, with one
+    attribute per spec parameter holding the octets at the spec offset, re-serialise unchanged, and a
+    fresh object built from the parsed attributes serialises to the same (spec-length) octets."""
+    hci = reg['hci']
+    CC = hci.HCI_Command_Complete_Event
+    op = e.code
+    layout = rp_spec.RETURN_PARAMETERS.get(op)
+    if layout is None:
+        r.ev('rp_spec_table_missing')
+        r.add_extra_list('return_parameter_spec_layout_missing', f'{op:#06x} {e.name}')
+        return
+    names = [f.name for f in dataclasses.fields(declared)] if dataclasses.is_dataclass(declared) else []
+    positional = len(names) == rp_spec.field_count(layout)
+    for _ in range(n):
+        rp_bytes, parts = rp_spec.generate(rng, layout, ref.gen_bytes)
+        num = rng.choice([0, 1, 1, 2, 255])
+        b = cc_bytes(num, op, rp_bytes)
+        what = f'{e.name}: spec-shaped return parameters {rp_bytes.hex()[:80]} ({len(rp_bytes)} octets, layout {layout})'
+        r.evals()
+        r.ev('rp_spec_layout_checks')
+        r.ev('cmdcomplete_checks')
+        r.ev('oracle_evals')
+        r.sig('cc', e.name, 'spec', tuple(p[2] for p in parts if p[0] != 'f'))
+        try:
+            p = hci.HCI_Packet.from_bytes(b)
+            rp = p.return_parameters
+        except Exception as ex:
+            agg.add('cmdcomplete/spec-layout/parse-raises', pe, f'{what}: {type(ex).__name__}: {ex}')
+            continue
+        if type(p) is not CC or type(rp) is not declared:
+            agg.add('cmdcomplete/spec-layout/rp-class', pe, f'{what}: parsed as {type(p).__name__} with {type(rp).__name__}, '
+                                                            f'command declares {declared.__name__}')
+            continue
+        try:
+            if bytes(p) != b:
+                agg.add('cmdcomplete/spec-layout/reserialise', pe, f'{what} -> {bytes(p).hex()[:100]}')
+        except Exception as ex:
+            agg.add('cmdcomplete/spec-layout/reserialise', pe, f'{what}: bytes(parsed) raised {type(ex).__name__}: {ex}')
+        # one attribute per spec parameter, holding the octets found at the spec offset
+        if positional:
+            r.ev('rp_spec_field_checks')
+            r.ev('oracle_evals')
+            i = 0
+            for part in parts:
+                if part[0] == 'n':
+                    _k, off, count, sizes = part
+                    pos = off + 1
+                    lists = [getattr(rp, names[i + j], None) for j in range(len(sizes))]
+                    if any(not isinstance(x, (list, tuple)) or len(x) != count for x in lists):
+                        agg.add('cmdcomplete/spec-layout/array-count', pe, f'{what}: {count} items at offset {off}, parsed '
+                                f'{[len(x) if isinstance(x, (list, tuple)) else x for x in lists]}')
+                    else:
+                        for it in range(count):
+                            for j, sz in enumerate(sizes):
+                                if not _rp_attr_matches(lists[j][it], rp_bytes[pos:pos + sz]):
+                                    agg.add('cmdcomplete/spec-layout/field', pe, f'{what}: {names[i + j]}[{it}]={lists[j][it]!r} but the '
+                                            f'spec puts {rp_bytes[pos:pos + sz].hex()} there (offset {pos}, {sz} octets)')
+                                pos += sz
+                    i += len(sizes)
+                else:
+                    _k, off, sz = part
+                    v = getattr(rp, names[i], _MISSING)
+                    if v is _MISSING or not _rp_attr_matches(v, rp_bytes[off:off + sz]):
+                        agg.add('cmdcomplete/spec-layout/field', pe, f'{what}: {names[i]}={v if v is not _MISSING else "missing"!r} but the spec '
+                                f'puts {rp_bytes[off:off + sz].hex()[:40]} there (offset {off}, {sz} octets)')
+                    i += 1
+        # a fresh object built from the parsed attributes (what a controller does)
+        r.ev('rp_spec_rebuilds')
+        r.ev('oracle_evals')
+        try:
+            fresh = declared(**{nm: getattr(rp, nm) for nm in names})
+            q = CC(num_hci_command_packets=num, command_opcode=op, return_parameters=fresh)
+            got = bytes(q)[6:]
+            if len(got) != len(rp_bytes):
+                agg.add('cmdcomplete/spec-layout/built-length', pe,
+                        f'{what}: {declared.__name__} built from the parsed fields serialises to {len(got)} octets {got.hex()[:80]}')
+            elif got != rp_bytes:
+                agg.add('cmdcomplete/spec-layout/built-bytes', pe, f'{what}: built from the parsed fields {got.hex()[:80]}')
+        except Exception as ex:
+            agg.add('cmdcomplete/spec-layout/built-raises', pe, f'{what}: {type(ex).__name__}: {ex}')
+
+
 def cmdcomplete_case(case, r: R):
     reg = registries()
     hci = reg['hci']
@@ -1043,7 +1156,16 @@ def cmdcomplete_case(case, r: R):
                 except Exception as ex:
                     r.bad('cmdcomplete/no-rp-class/raises', f'{e.name}: {b.hex()[:80]}: {type(ex).__name__}: {ex}')
             continue
-        rpc = getattr(e.cls, 'return_parameters_class', None)
+        registered = getattr(e.cls, 'return_parameters_class', None)
+        # the class the command itself names (HCI_SyncCommand[...]) is the statement of intent;
+        # what the decorator registered is what from_parameters / the controller side really use
+        rpc = declared_rp_class(hci, e.cls)
+        r.ev('rp_declared_class_checks')
+        r.ev('oracle_evals')
+        if rpc is None:
+            r.ev('rp_declared_class_unknown')
+            r.add_extra_list('return_parameter_classes_undeclared', e.name)
+            rpc = registered
         try:
             descs = ref.describe_class(rpc)
         except ref.Unsupported as ex:
@@ -1052,6 +1174,12 @@ def cmdcomplete_case(case, r: R):
             continue
         pe = RpEntry(e, descs)
         agg.saw(pe)
+        if registered is not rpc:
+            agg.add('cmdcomplete/rp-class-registration', pe,
+                    f'{e.name} is declared as HCI_SyncCommand[{rpc.__name__}] but registered with '
+                    f'return_parameters_class={getattr(registered, "__name__", registered)}: a Command Complete for op code '
+                    f'{op:#06x} is parsed as / serialised from the other class')
+        rp_spec_checks(reg, e, pe, rpc, rng, r, agg, case['per'], cc_bytes)
         has_status = issubclass(rpc, hci.HCI_StatusReturnParameters) and descs and descs[0].name == 'status'
         r.ev('oracle_evals')
         mine, theirs = ref.structure(descs), ref.structure_of_fields(rpc.fields)
